@@ -8,3 +8,4 @@ C07 — Culling, write masks and statistics behave as configured.
 -/
 import Retro.Props.C07.Base
 import Retro.Props.C07.Masks
+import Retro.Props.C07.Examples
